@@ -3,23 +3,25 @@
 # Applies the patch to a scratch worktree of /repo (never to /repo itself), runs the baseline tests, the demo and the
 # quick checks of the given properties against it through ICV_REPO, then removes the worktree.
 set -u
+HERE=$(cd "$(dirname "$0")/.." && pwd)
 D=$(realpath $1); shift
 WT=$(mktemp -d /tmp/mutwt.XXXXXX); rmdir $WT
 git -C /repo worktree add -q --detach $WT HEAD || exit 2
-if ! git -C $WT apply $D/patch.diff 2>/tmp/apply.err; then
-  if ! (cd $WT && patch -p1 --fuzz=3 < $D/patch.diff >/tmp/apply.err 2>&1); then
-    echo "PATCH-DOES-NOT-APPLY"; cat /tmp/apply.err | head -5; git -C /repo worktree remove --force $WT; exit 3
-  fi
+if ! git -C $WT apply $D/patch.diff 2>/tmp/apply.$$.err; then
+  echo "PATCH-DOES-NOT-APPLY"; head -5 /tmp/apply.$$.err; rm -f /tmp/apply.$$.err; git -C /repo worktree remove --force $WT; exit 3
 fi
+rm -f /tmp/apply.$$.err
 echo "== baseline tests on mutant:"; (cd $WT && /venv/bin/python -m pytest -q -p no:cacheprovider --timeout=900 --continue-on-collection-errors 2>&1 | tail -1)
 if [ -f $D/demo.py ]; then
-  echo "== demo on mutant:"; (cd /tmp && PYTHONPATH=$WT /venv/bin/python $D/demo.py 2>&1 | grep -v conda | tail -3); echo "demo exit=$?"
-  echo "== demo on clean:"; (cd /tmp && PYTHONPATH=/repo /venv/bin/python $D/demo.py 2>&1 | grep -v conda | tail -1)
+  (cd /tmp && PYTHONPATH=$WT /venv/bin/python $D/demo.py >/tmp/demo.$$.out 2>&1); echo "== demo on mutant: exit=$? $(grep -v conda /tmp/demo.$$.out | tail -1 | cut -c1-160)"
+  (cd /tmp && PYTHONPATH=/repo /venv/bin/python $D/demo.py >/tmp/demo.$$.out 2>&1); echo "== demo on clean:  exit=$? $(grep -v conda /tmp/demo.$$.out | tail -1 | cut -c1-160)"
+  rm -f /tmp/demo.$$.out
 fi
 for P in "$@"; do
   echo "== check $P on mutant:"
-  (cd /verif && ICV_REPO=$WT ICV_NO_EVIDENCE=1 /venv/bin/python -m icv check $P 2>&1 | grep -v conda | grep -E "VIOLATION|^OK|MACHINERY|KNOWN|clause=|note:" | head -8)
+  (cd $HERE && ICV_REPO=$WT ICV_NO_EVIDENCE=1 ICV_NO_REPLAY=1 /venv/bin/python -m icv check $P > /tmp/chk.$$.out 2>&1; echo "exit=$?"; grep -v conda /tmp/chk.$$.out | grep -E "^VIOLATION|^OK|MACHINERY" | head -2 | cut -c1-200; grep -v conda /tmp/chk.$$.out | grep -E "^  clause=" | head -2 | cut -c1-260)
+  rm -f /tmp/chk.$$.out
 done
 git -C /repo worktree remove --force $WT
-find $WT -maxdepth 0 2>/dev/null && rm -rf $WT
+[ -d $WT ] && rm -rf $WT
 exit 0
